@@ -470,8 +470,16 @@ func c05(c *Ctx) {
 				continue
 			}
 			nr++
-			phi, isPhi := cfgx.Receiver(gc).(*ssa.Phi)
-			c.R.Check(loop != nil && !loop[x.Block()] && isPhi && phi.Block() == hdr, site(x)+" final-desired", c.pos(x.Pos()), "reads the readiness of the last step's desired composite", "the XR readiness is not read from the final desired state")
+			// the receiver is the loop-carried desired state (possibly handed on through a result temporary)
+			isPhi := false
+			if hdr != nil {
+				for _, in := range hdr.Instrs {
+					if hp, ok := in.(*ssa.Phi); ok && carries(cfgx.ResolveAt(cfgx.Receiver(gc), gc.Block()), hp) {
+						isPhi = true
+					}
+				}
+			}
+			c.R.Check(loop != nil && !loop[x.Block()] && isPhi, site(x)+" final-desired", c.pos(x.Pos()), "reads the readiness of the last step's desired composite", "the XR readiness is not read from the final desired state")
 		}
 		if n == 0 || nr == 0 {
 			c.R.Unknown(load.FuncName(fc)+": composite readiness", c.pos(fc.Pos()), "expected the desired composite's GetReady() to be read and stored into CompositeResource.Ready")
